@@ -237,14 +237,23 @@ example : tr (tw ++ [tw[2]!]) = ([[1, 2], [3], [4], [5, 6]], some .decrypt) := b
 section Packets
 variable (maxSize : Nat) (caps : Nat → Nat)
 
-/-- **(3) packets_exact (partial: non-empty messages)** — for EVERY sequence of `Send`s on any
-channels and EVERY scheduler (any interleaving of `sendPacketMsg` picks, including picks of idle
-channels), provided every message is non-empty and within the receive capacity of its channel:
-the receiver never errors, and on every channel the messages handed to `onReceive` are a prefix
-of the messages sent on that channel – same bytes, same order, none twice – and are *all* of
-them once the channel has nothing left to send.  See `empty_message_lost_counterexample` for why
-"non-empty" is needed. -/
-theorem packets_exact_partial (acts : List Act) (hok : ActsOK caps acts) (j : Nat) :
+/-- **(3) packets_exact** — the full statement, proved for the code as fixed (finding C20-E1
+repaired: `isSendPending` dequeues only when `ch.sending == nil`).  For EVERY
+`maxPacketMsgPayloadSize` (NO hypothesis on `maxSize` is needed here – not even `0 < maxSize`; see
+`packets_drain` for the one place where positivity matters), EVERY assignment of receive
+capacities, EVERY sequence of `Send`s on any channels – messages of ANY size from 0 up to the
+receive capacity of their channel, in any mix across channels – and EVERY scheduler (any
+interleaving of `sendPacketMsg` picks, including picks of channels with nothing to send), and
+every channel `j`:
+* the receiver never errors;
+* the messages handed to `onReceive` on `j` are a prefix of the messages sent on `j` – same
+  bytes, same order, none twice, none invented;
+* once channel `j` has nothing left to send (queue empty, no message in flight) they are exactly
+  the messages sent on `j`: each exactly once, intact, in order – empty messages included.
+The only hypothesis is the one the property states: every message fits `RecvMessageCapacity`
+(see `oversize_refused` for the other case). -/
+theorem packets_exact (acts : List Act)
+    (hok : ∀ i m, Act.send i m ∈ acts → m.length ≤ caps i) (j : Nat) :
     let s := run maxSize caps init acts
     s.err = false ∧ (s.ch j).delivered <+: sentOn j acts ∧
       (idle (s.ch j) → (s.ch j).delivered = sentOn j acts) := by
@@ -258,41 +267,103 @@ theorem packets_exact_partial (acts : List Act) (hok : ActsOK caps acts) (j : Na
   obtain ⟨_, h0, h1⟩ := hinv j
   refine ⟨herr, ?_, ?_⟩
   · rw [← henq]
-    by_cases hs : (s.ch j).sending = []
-    · exact ⟨_, (h0 hs).2.symm⟩
-    · exact ⟨_, (h1 hs).1.symm⟩
+    cases hs : (s.ch j).sending with
+    | none => exact ⟨_, (h0 hs).2.symm⟩
+    | some sd => exact ⟨_, (h1 sd hs).1.symm⟩
   · intro hidle
     obtain ⟨hq, hs⟩ := hidle
     rw [← henq, (h0 hs).2, hq, List.append_nil]
 
-/-- the full statement (no restriction to non-empty messages). It is FALSE for the code:
-`empty_message_lost_counterexample`. -/
-def PacketsExactStatement : Prop :=
-  ∀ (maxSize : Nat) (caps : Nat → Nat) (acts : List Act),
-    (∀ i m, Act.send i m ∈ acts → m.length ≤ caps i) → ∀ j,
-      let s := run maxSize caps init acts
-      s.err = false ∧ (idle (s.ch j) → (s.ch j).delivered = sentOn j acts)
+/-- **(3b) packets_drain** — the idle clause of `packets_exact` is reachable, and this is exactly
+where `0 < maxPacketMsgPayloadSize` is needed: after any action list, finitely many further
+`sendPacketMsg` rounds serving channel `j` make it idle, and then everything sent on `j` – empty
+messages included – has been delivered, once, intact, in order. -/
+theorem packets_drain (hmax : 0 < maxSize) (acts : List Act)
+    (hok : ∀ i m, Act.send i m ∈ acts → m.length ≤ caps i) (j : Nat) :
+    ∃ n, let s := run maxSize caps init (acts ++ List.replicate n (.pkt j))
+      s.err = false ∧ idle (s.ch j) ∧ (s.ch j).delivered = sentOn j acts := by
+  obtain ⟨herr, hinv⟩ := inv_run maxSize caps acts init hok rfl (fun j => inv_init _)
+  obtain ⟨n, hn⟩ := drain maxSize hmax caps j _ _ herr hinv (Nat.le_refl _)
+  refine ⟨n, ?_⟩
+  have hok' : ∀ i m, Act.send i m ∈ acts ++ List.replicate n (.pkt j) → m.length ≤ caps i := by
+    intro i m hm
+    rcases List.mem_append.mp hm with h | h
+    · exact hok i m h
+    · exact absurd (List.eq_of_mem_replicate h) (by simp)
+  obtain ⟨h1, _, h3⟩ := packets_exact maxSize caps (acts ++ List.replicate n (.pkt j)) hok' j
+  rw [run_append] at h1 h3 ⊢
+  rw [sentOn_append, sentOn_replicate_pkt, List.append_nil] at h3
+  exact ⟨h1, hn, h3 hn⟩
 
-/-- the schedule of the counterexample: an empty message on channel 1, a one-byte message on
+/-- with `maxPacketMsgPayloadSize = 0` a non-empty message never completes (every packet is empty
+and not EOF): `0 < maxSize` in `packets_drain` cannot be dropped.  (`packets_exact` still holds
+there: the channel is never idle and nothing wrong is delivered.) -/
+theorem drain_needs_positive_maxSize (n : Nat) :
+    ¬ idle ((run 0 caps init ([.send 0 [7]] ++ List.replicate n (.pkt 0))).ch 0) := by
+  have key : ∀ (n : Nat) (s : Sys), s.err = false → (s.ch 0).recving = [] →
+      ((s.ch 0).sending = some [7] ∨ ((s.ch 0).sending = none ∧ ∃ q, (s.ch 0).queue = [7] :: q)) →
+      ¬ idle ((run 0 caps s (List.replicate n (.pkt 0))).ch 0) := by
+    intro n
+    induction n with
+    | zero =>
+      intro s _ _ h hi
+      have hi' : idle (s.ch 0) := hi
+      obtain ⟨hq, hs⟩ := hi'
+      rcases h with h | ⟨_, q, h⟩
+      · rw [hs] at h; cases h
+      · rw [hq] at h; cases h
+    | succ n ih =>
+      intro s herr hr h
+      simp only [List.replicate_succ, run, List.foldl_cons]
+      have hsw : (sweep s.ch 0).sending = some [7] ∧ (sweep s.ch 0).recving = [] ∧ pending s.ch 0 = true := by
+        rcases h with h | ⟨h, q, hq⟩
+        · simp [sweep, pending, isSendPending, h, hr]
+        · simp [sweep, pending, isSendPending, h, hq, hr]
+      obtain ⟨h1, h2, h3⟩ := hsw
+      have hst : (step 0 caps s (.pkt 0)).err = false ∧ ((step 0 caps s (.pkt 0)).ch 0).recving = [] ∧
+          ((step 0 caps s (.pkt 0)).ch 0).sending = some [7] := by
+        simp [step, herr, h3, nextPacket, recvPacket, h1, h2, upd]
+      exact ih _ hst.1 hst.2.1 (Or.inl hst.2.2)
+  rw [run_append]
+  exact key n _ rfl rfl (Or.inr ⟨rfl, [], rfl⟩)
+
+/-! #### regression: finding C20-E1 (fixed) -/
+
+/-- the schedule of finding C20-E1: an empty message on channel 1, a one-byte message on
 channel 0, the scheduler serves channel 0 first -/
 def cexActs : List Act := [.send 1 [], .send 0 [7], .pkt 0, .pkt 1, .pkt 0]
-def cex : Sys := run 1024 (fun _ => 100) init cexActs
 
-/-- **finding** — `isSendPending` dequeues an empty message into `ch.sending`; if the scheduler
-picks another channel in that `sendPacketMsg`, the next `isSendPending` sees `len(sending)==0`
-again and the message is gone: accepted by `Send`, never transmitted, never delivered. -/
-theorem empty_message_lost_counterexample :
-    (cex).err = false ∧ idle (cex.ch 0) ∧ idle (cex.ch 1) ∧ cex.wire.length = 1 ∧
-      (cex.ch 0).delivered = [[7]] ∧ (cex.ch 1).delivered = [] ∧ sentOn 1 cexActs = [[]] := by
+/-- the schedule run under the OLD rule (`isSendPendingOld`: `len(ch.sending) == 0`) -/
+def cexOld : Sys := runWith isSendPendingOld 1024 (fun _ => 100) init cexActs
+/-- the schedule run on the model of the current code -/
+def cexNew : Sys := run 1024 (fun _ => 100) init cexActs
+
+/-- **regression (old rule loses the message)** — with the length test the first
+`sendPacketMsg` dequeues the empty message of channel 1 into `ch.sending` and serves channel 0;
+from then on `isSendPending` of channel 1 sees `len(sending) == 0` with an empty queue: no channel
+is pending (`sendPacketMsg` reports "exhausted"), ONE packet was sent, the message accepted on
+channel 1 was never transmitted or delivered. -/
+theorem empty_message_lost_counterexample_old_rule :
+    cexOld.err = false ∧
+      (isSendPendingOld (cexOld.ch 0)).1 = false ∧ (isSendPendingOld (cexOld.ch 1)).1 = false ∧
+      cexOld.wire.length = 1 ∧
+      (cexOld.ch 0).delivered = [[7]] ∧ (cexOld.ch 1).delivered = [] ∧ sentOn 1 cexActs = [[]] := by
   decide
 
-theorem packetsExactStatement_false : ¬ PacketsExactStatement := by
-  intro h
-  have := h 1024 (fun _ => 100) cexActs
-    (by intro i m hm; simp [cexActs] at hm; rcases hm with ⟨_, rfl⟩ | ⟨_, rfl⟩ <;> simp) 1
-  have h2 : (cex.ch 1).delivered = sentOn 1 cexActs := this.2 (by show idle (cex.ch 1); decide)
-  revert h2
+/-- **regression (the current model delivers it)** — same schedule: the empty message stays in
+flight (`sending = some []`) while channel 0 is served, its EOF packet goes out at the next pick
+of channel 1, and it is delivered: two packets, both channels idle, everything delivered. -/
+theorem empty_message_delivered :
+    cexNew.err = false ∧ idle (cexNew.ch 0) ∧ idle (cexNew.ch 1) ∧ cexNew.wire.length = 2 ∧
+      cexNew.wire.head? = some ⟨1, true, []⟩ ∧
+      (cexNew.ch 0).delivered = [[7]] ∧ (cexNew.ch 1).delivered = [[]] ∧
+      (cexNew.ch 1).delivered = sentOn 1 cexActs := by
   decide
+
+/-- the two runs differ in the rule only: `runWith` instantiated with the current `isSendPending`
+is the model's `run` -/
+theorem cexNew_eq_runWith : cexNew = runWith isSendPending 1024 (fun _ => 100) init cexActs :=
+  (runWith_new _ _ _ _).symm
 
 /-- one message alone on a channel: its packets, fed to the receiver whose buffer already holds
 `r`, give the message (appended to `r`) exactly when it fits, and an error – with nothing
@@ -306,17 +377,16 @@ theorem recvAll_packetize (hmax : 0 < maxSize) (cap id : Nat) :
   | zero => intro s r h; omega
   | succ f ih =>
     intro s r hf
-    unfold packetize nextPacket
+    unfold packetize
     by_cases hle : s.length ≤ maxSize
-    · have hmin : min maxSize s.length = s.length := by omega
-      simp only [hle, if_true, hmin, List.take_length]
+    · rw [nextPacket_last maxSize id { sending := some s } s rfl hle]
       by_cases hc : r.length + s.length ≤ cap
       · have : ¬ cap < r.length + s.length := by omega
         simp [recvAll, recvPacket, this, hc]
       · have : cap < r.length + s.length := by omega
         simp [recvAll, recvPacket, this, hc]
-    · have hmin : min maxSize s.length = maxSize := by omega
-      simp only [hle, if_false, hmin, Bool.false_eq_true]
+    · rw [nextPacket_more maxSize id { sending := some s } s rfl hle]
+      simp only [Bool.false_eq_true, if_false, Option.getD_some]
       have hdl : (s.drop maxSize).length < f := by simp; omega
       have htl : (s.take maxSize).length = maxSize := by simp [List.length_take]; omega
       by_cases hc : cap < r.length + maxSize
@@ -361,7 +431,8 @@ theorem delivered_within_capacity (cap : Nat) (recving : Bytes) (p : Packet) (m 
 /-- **empty_message_ok** — what the code does with a zero-length message *when its packet is
 sent*: one packet with EOF set and no payload; the receiver hands an empty message to
 `onReceive` (the `msgBytes != nil` test passes because `recving` is an allocated empty slice).
-Whether the packet is sent at all depends on the scheduler: `empty_message_lost_counterexample`. -/
+That the packet IS sent under every scheduler is part of `packets_exact` (it was not before the
+fix of C20-E1: `empty_message_lost_counterexample_old_rule`). -/
 theorem empty_message_ok (cap id : Nat) :
     packetize maxSize id 1 [] = [⟨id, true, []⟩] ∧
     recvAll cap [] (packetize maxSize id 1 []) = ([[]], true) := by
@@ -373,18 +444,19 @@ theorem empty_message_ok (cap id : Nat) :
 packet that empties `sending` -/
 theorem packet_payload_bound (id : Nat) (c : Chan) :
     (nextPacket maxSize id c).1.data.length ≤ maxSize ∧
-    ((nextPacket maxSize id c).1.eof = true ↔ c.sending.length ≤ maxSize) ∧
-    (nextPacket maxSize id c).1.data ++ (nextPacket maxSize id c).2.sending = c.sending := by
-  unfold nextPacket
-  by_cases h : c.sending.length ≤ maxSize
-  · have hmin : min maxSize c.sending.length = c.sending.length := by omega
+    ((nextPacket maxSize id c).1.eof = true ↔ (c.sending.getD []).length ≤ maxSize) ∧
+    ((nextPacket maxSize id c).1.eof = true ↔ (nextPacket maxSize id c).2.sending = none) ∧
+    (nextPacket maxSize id c).1.data ++ (nextPacket maxSize id c).2.sending.getD [] = c.sending.getD [] := by
+  simp only [nextPacket]
+  by_cases h : (c.sending.getD []).length ≤ maxSize
+  · have hmin : min maxSize (c.sending.getD []).length = (c.sending.getD []).length := by omega
     simp [h, hmin]
-  · have hmin : min maxSize c.sending.length = maxSize := by omega
+  · have hmin : min maxSize (c.sending.getD []).length = maxSize := by omega
     simp [h, hmin, List.length_take]
 
 end Packets
 
--- non-vacuity of `packets_exact_partial`: two channels, interleaved packets, message of 5 bytes
+-- non-vacuity of `packets_exact`: two channels, interleaved packets, message of 5 bytes
 -- in packets of 2
 example :
     let s := run 2 (fun _ => 10) init
